@@ -61,6 +61,10 @@ M = {
  'c18-cmd': ('frontends/tui/controller.py', "                self.out.error('Expected number after \\'~\\', got \\'' + tilde_split[1] + '\\'')\n                return", "                raise"),
  'c18-eofclose': ('backends/libwayland_debug_output/parse.py', "    def cleanup(self):\n        for conn_id in self.known_connections:", "    def cleanup(self):\n        for conn_id in sorted(self.known_connections)[1:]:"),
  'c18-matcher': ('core/matcher.py', "        except ValueError:\n            raise RuntimeError(text + ' is not a valid int')", "        except ValueError:\n            raise"),
+ 'c04-title-first': ('core/connection_impl.py', "self._set_title(app_id.rsplit('.', 1)[-1])", "self._set_title(app_id.split('.', 1)[0])"),
+ 'c04-title-overwrite': ('core/connection_impl.py', "elif message.name == 'set_title' and not self.title:", "elif message.name == 'set_title':"),
+ 'c04-appid-case': ('frontends/tui/controller.py', "            if app_id is not None and name == app_id.lower():", "            if app_id is not None and name == app_id:"),
+ 'c04-conn-count': ('frontends/tui/controller.py', "line += color(int_color, str(len(connection.messages()))) + ' messages'", "line += color(int_color, str(len(self.all_messages))) + ' messages'"),
 }
 name = sys.argv[1]
 f, old, new = M[name]
